@@ -267,9 +267,16 @@ def run(prop, tier):
     proof = C.proof_step(["Props/%s.v" % prop])
     proof["trusted"] = [
         "model Split/Split.v composed from the tokenizer model (tied by translation), the exact energy decision (C07), Split/Duration.v and IO/Reader.v; split() itself is tied by correspondence on synthesized audio whose window energies are far from the threshold",
-        "region start/end/duration are compared bit-exactly with Flocq binary64 computations",
+        "region start/end/duration are compared bit-exactly with Flocq binary64 computations; their arithmetic (start = first window x the reader's block duration, duration = bytes / (rate x width x channels), end = start + duration, and the arguments split() passes) is translated from /repo on every run and proved equal to Split.region_start / region_duration / region_end (harness/py2coq/misc.py group times, TieTimes.v)",
         "extraction (ExtrOcamlBasic only) + OCaml driver, cross-checked by vm_compute on a sample; file system, wave module and sys.stdin replacement exercised, not modelled",
     ]
+    tie = None
+    if prop == "C05":
+        from ..py2coq import misctie
+        tie = misctie.tie_group("times")
+        proof["tie_obligations"] = tie["obligations"]
+        if not tie["ok"]:
+            proof["undischarged"] = tie["obligations"]
     au = C.import_auditok()
     import auditok.io as aio
     quick = tier == "quick"
@@ -507,8 +514,13 @@ def run(prop, tier):
                                   "each seeded case is run through bytes, AudioRegion, wav eager/lazy, raw eager/lazy, raw by format alias, BufferAudioSource, AudioReader(block_dur=aw), replaced stdin, short aliases, both spellings with conflicting values, and max_read/mr against the pre-sliced input; ") + "every run must equal the model (bytes, bit-exact start/end/duration, parameters); non-trivial = distinct case with at least one region (%d regions in all)" % nreg,
                          "samples": [{"case": meta[1], "model": outs[1] if len(C.dumps(outs[1])) < 3000 else "large"}, {"case": meta[-1]}],
                          "vm_compute_crosschecked": vm, "correspondence_mismatches": len(mism), "errors": sum(1 for o in outs if o[0] == 1)})
+    if tie is not None:
+        res.coverage["tie_translation"] = tie["detail"][:300]
     if viol:
         res.add_violation(viol["what"], viol)
+    elif tie is not None and not tie["ok"] and not mism:
+        res.tie_undischarged("translation tie broken: " + tie["detail"][:700] + " -- the correspondence (bytes and bit-exact times) agrees everywhere and the statement's oracle found no failing input",
+                             {"no_longer_checks": "TieTimes.v", "tie_detail": tie["detail"]})
     elif mism:
         m, i, o = mism[0]
         res.add_violation("model and implementation differ on %r; the statement's own oracle found no failing input" % (m,),
